@@ -26,6 +26,7 @@ type PathQuery struct {
 // pframe is one activation on the search stack: the next instruction to run is fn-block b, index i.
 type pframe struct {
 	b     *ssa.BasicBlock
+	prevB *ssa.BasicBlock // the block this one was entered from (selects φ edges)
 	i     int
 	armed bool                // a deferred stop is pending in this activation
 	defs  []*ssa.Defer        // deferred calls of absorbed helpers passed so far (run at RunDefers)
@@ -35,8 +36,14 @@ type pframe struct {
 type pnode struct {
 	stack []pframe // innermost last
 	binds []retBind
+	conds []condFact // branch conditions already decided on this path (an SSA value keeps its value until it is re-evaluated)
 	prev  *pnode
 	at    ssa.Instruction
+}
+
+type condFact struct {
+	v   ssa.Value
+	val bool
 }
 
 // retBind records which Return a finished helper activation came back through: the caller's tests of the call's results are
@@ -44,18 +51,22 @@ type pnode struct {
 type retBind struct {
 	call ssa.CallInstruction
 	ret  *ssa.Return
+	vals []ssa.Value // the returned values, with a φ of the returning block replaced by the edge the path came in on
 }
 
 func (n *pnode) key() string {
 	var sb strings.Builder
 	for _, f := range n.stack {
-		fmt.Fprintf(&sb, "%p:%d:%v:%d|", f.b, f.i, f.armed, len(f.defs))
+		fmt.Fprintf(&sb, "%p<%p:%d:%v:%d|", f.b, f.prevB, f.i, f.armed, len(f.defs))
 		for _, d := range f.defs {
 			fmt.Fprintf(&sb, "%p,", d)
 		}
 	}
 	for _, b := range n.binds {
 		fmt.Fprintf(&sb, "#%p=%p", b.call, b.ret)
+	}
+	for _, c := range n.conds {
+		fmt.Fprintf(&sb, "?%p=%v", c.v, c.val)
 	}
 	return sb.String()
 }
@@ -127,8 +138,9 @@ func (q *PathQuery) Find() []ssa.Instruction {
 		}
 		return rev
 	}
+	var curConds []condFact
 	push := func(parent *pnode, st []pframe, binds []retBind, at ssa.Instruction) {
-		n := &pnode{stack: st, binds: binds, prev: parent, at: at}
+		n := &pnode{stack: st, binds: binds, conds: curConds, prev: parent, at: at}
 		k := n.key()
 		if seen[k] {
 			return
@@ -145,6 +157,7 @@ func (q *PathQuery) Find() []ssa.Instruction {
 			return nil
 		}
 		// run the innermost pframe to the end of its block (or until it calls / returns)
+		curConds = n.conds
 		st := append([]pframe{}, n.stack...)
 		top := &st[len(st)-1]
 		b := top.b
@@ -152,6 +165,9 @@ func (q *PathQuery) Find() []ssa.Instruction {
 		moved := false
 		for ; top.i < len(b.Instrs); top.i++ {
 			in := b.Instrs[top.i]
+			if v, isV := in.(ssa.Value); isV && len(curConds) > 0 {
+				curConds = dropCond(curConds, v) // the value is computed anew (loop iteration): forget what was decided about it
+			}
 			if d, ok := in.(*ssa.Defer); ok {
 				if q.DeferStop != nil && q.DeferStop(d) {
 					top.armed = true
@@ -203,7 +219,17 @@ func (q *PathQuery) Find() []ssa.Instruction {
 				ns := append([]pframe{}, st[:len(st)-1]...)
 				binds := n.binds
 				if top.call != nil {
-					binds = append(append([]retBind{}, dropBind(binds, top.call)...), retBind{top.call, r})
+					vals := RetVals(r)
+					for vi, v := range vals {
+						if phi, isPhi := v.(*ssa.Phi); isPhi && phi.Block() == b && top.prevB != nil {
+							for pk, pb := range b.Preds {
+								if pb == top.prevB {
+									vals[vi] = phi.Edges[pk]
+								}
+							}
+						}
+					}
+					binds = append(append([]retBind{}, dropBind(binds, top.call)...), retBind{top.call, r, vals})
 				}
 				push(n, ns, binds, nil)
 				moved = true
@@ -225,7 +251,20 @@ func (q *PathQuery) Find() []ssa.Instruction {
 					continue // the helper's return decides this test
 				}
 			}
+			saved := curConds
+			if isIf {
+				base, neg := StripNot(ifi.Cond)
+				want := (k == 0) != neg
+				if prevVal, seen := lookupCond(curConds, base); seen {
+					if prevVal != want {
+						continue // the same value was already tested the other way on this path
+					}
+				} else if _, isConst := base.(*ssa.Const); !isConst {
+					curConds = append(append([]condFact{}, curConds...), condFact{base, want})
+				}
+			}
 			ns := append([]pframe{}, st...)
+			ns[len(ns)-1].prevB = b
 			ns[len(ns)-1].b = s
 			ns[len(ns)-1].i = 0
 			var at ssa.Instruction
@@ -233,9 +272,38 @@ func (q *PathQuery) Find() []ssa.Instruction {
 				at = s.Instrs[0]
 			}
 			push(n, ns, n.binds, at)
+			curConds = saved
 		}
 	}
 	return nil
+}
+
+func lookupCond(cs []condFact, v ssa.Value) (bool, bool) {
+	for _, c := range cs {
+		if c.v == v {
+			return c.val, true
+		}
+	}
+	return false, false
+}
+
+func dropCond(cs []condFact, v ssa.Value) []condFact {
+	found := false
+	for _, c := range cs {
+		if c.v == v {
+			found = true
+		}
+	}
+	if !found {
+		return cs
+	}
+	var out []condFact
+	for _, c := range cs {
+		if c.v != v {
+			out = append(out, c)
+		}
+	}
+	return out
 }
 
 func onStack(st []pframe, h *ssa.Function) bool {
@@ -284,15 +352,15 @@ func condUnder(cond ssa.Value, binds []retBind) (val bool, known bool) {
 		case *ssa.Extract:
 			if call, ok := x.Tuple.(*ssa.Call); ok {
 				for _, b := range binds {
-					if b.call == ssa.CallInstruction(call) && x.Index < len(b.ret.Results) {
-						return RetVal(b.ret, x.Index), b.ret, true
+					if b.call == ssa.CallInstruction(call) && x.Index < len(b.vals) {
+						return b.vals[x.Index], b.ret, true
 					}
 				}
 			}
 		case *ssa.Call:
 			for _, b := range binds {
-				if b.call == ssa.CallInstruction(x) && len(b.ret.Results) == 1 {
-					return RetVal(b.ret, 0), b.ret, true
+				if b.call == ssa.CallInstruction(x) && len(b.vals) == 1 {
+					return b.vals[0], b.ret, true
 				}
 			}
 		}
@@ -389,7 +457,7 @@ func OnlyViaEdge(i *ssa.If, branch bool, x ssa.Instruction) bool {
 	if i.Block().Succs[0] == i.Block().Succs[1] {
 		return false
 	}
-	if fi == fx && len(AbsorbedInto(fi)) == 0 {
+	if fi == fx && len(AbsorbedInto(fi)) == 0 && !hasRepeatedCond(fi) {
 		return onlyViaEdgeLocal(i, branch, x)
 	}
 	if fi == fx && onlyViaEdgeLocal(i, branch, x) {
@@ -630,4 +698,33 @@ func nonNilErr(v ssa.Value, at ssa.Instruction, seen map[ssa.Value]bool) bool {
 		return CondMatch{}
 	})
 	return ok
+}
+
+var repeatedCondCache = map[*ssa.Function]bool{}
+
+// hasRepeatedCond: some SSA value is the condition of two branch instructions of fn (then a path can be infeasible although
+// the flow graph allows it, and the correlating search is worth its cost).
+func hasRepeatedCond(fn *ssa.Function) bool {
+	if v, ok := repeatedCondCache[fn]; ok {
+		return v
+	}
+	seen := map[ssa.Value]bool{}
+	rep := false
+	for _, b := range fn.Blocks {
+		if len(b.Instrs) == 0 {
+			continue
+		}
+		if i, ok := b.Instrs[len(b.Instrs)-1].(*ssa.If); ok {
+			base, _ := StripNot(i.Cond)
+			if _, isConst := base.(*ssa.Const); isConst {
+				continue
+			}
+			if seen[base] {
+				rep = true
+			}
+			seen[base] = true
+		}
+	}
+	repeatedCondCache[fn] = rep
+	return rep
 }
